@@ -418,6 +418,17 @@ def module_guards(ctx, P, rule="MODULE-GUARD", freeze=False, only=None):
                         "unsigned" in (iv.hi_atom.ln.dty or "") or (iv.hi_atom.ln.ty or "") in ("tsk_size_t", "size_t", "uint32_t", "unsigned int"))
                     if not uns:
                         ok, why = False, "no lower bound on signed `%s`" % subj
+                if ok:
+                    # the index is then handed to an accessor of the SAME table
+                    sname = re.sub(r"^\(\w+\)", "", subj)
+                    for c in calls(fn.body):
+                        m_ = re.fullmatch(r"tsk_treeseq_get_(node|edge|migration|site|mutation|individual|population|provenance)", callee(c) or "")
+                        if not m_:
+                            continue
+                        if any(re.sub(r"^\(\w+\)\s*", "", estr(a)) == sname for a in c.kids[2:3]):
+                            want_tbl = m_.group(1) + "s"
+                            if want_tbl != tbl:
+                                ok, why = False, "`%s` is range-checked against count(%s) but then passed to %s" % (subj, tbl, callee(c))
                 ctx.ob(rule, key, ok, tu.loc(n), why)
     if freeze:
         with open(MODULE_GUARD_TABLE, "w") as fh:
